@@ -88,6 +88,10 @@ type Server struct {
 	SnapWrites int
 	Burst      string
 
+	// CutNextPayload (one shot): the next snapshot transfer delivers only the first half
+	// of its payload, then the connection is lost.
+	CutNextPayload bool
+
 	// MachineryErrors collects protocol problems of the double itself.
 	MachineryErrors []string
 }
@@ -396,6 +400,15 @@ func (s *Server) psync(cs *connState, argv []string) {
 // payload. Burst says how payload and stream are cut into writes on the connection.
 func (s *Server) deliver(cs *connState, rdb []byte, later func(time.Duration, func())) {
 	if cs.hist != s.cur {
+		return
+	}
+	if rdb != nil && s.CutNextPayload {
+		s.CutNextPayload = false
+		cs.c.Push(append([]byte(nil), rdb[:len(rdb)/2]...))
+		cs.closed = true
+		cs.streaming = false
+		cs.c.Kill(false)
+		delete(s.conns, cs.id)
 		return
 	}
 	if rdb != nil && s.SnapWrites > 0 {
